@@ -30,6 +30,14 @@ pub open spec fn bfc_post(cs: Seq<Energy>, w: Seq<Factor>, c: Carrier, k: real, 
     &&& ced_post(b.used, b.prod, b.exp, b.del)
     &&& cwe_post(w, c, k, b.used, b.exp, b.del, Ok(b.we))
 }
+/// the flows of carrier c as the two flow functions are proved to compute them
+pub open spec fn flows_ok(cs: Seq<Energy>, c: Carrier, lm: bool, used: UsedEnergy, prod: ProducedEnergy, fm: Seq<f32>, exp: ExportedEnergy, del: DeliveredEnergy) -> bool {
+    cup_post(filter_carrier(cs, c), lm, used, prod, fm) && ced_post(used, prod, exp, del)
+}
+/// the derived cogeneration factors can be computed (exactly when add_cgn_factors succeeds)
+pub open spec fn cgn_ok(w: Seq<Factor>, cs: Seq<Energy>) -> bool {
+    !has_cgn_prod(cs) || (any_cgn_use(cs) && cgn_factors_ok(w, cs, false) && has_fp(w, Carrier::ELECTRICIDAD, Source::RED, Dest::SUMINISTRO, Step::A))
+}
 pub open spec fn rer_spec(b: R3) -> real { if b.ren + b.nren == 0real { 0real } else { b.ren / (b.ren + b.nren) } }
 #[verifier::opaque]
 pub open spec fn bal_add_all(o: Balance, f: Balance, r: BalanceCarrier) -> bool {
